@@ -123,3 +123,11 @@ pub fn run<F: Future>(f: F, max: u8) -> (Option<F::Output>, u8) {
     }
     (None, n)
 }
+
+/// step continuation for `~->` in async programs: awaits the previous value, logs, then waits on a fresh gate
+pub fn then_gate(f: impl Future<Output = u8>, p: u8, c: u16, k: u8) -> impl Future<Output = u8> {
+    async move { let x = f.await; ev(c); gate(p, (c & 0x0fff) | (K_POLL << 12) | 1, x.wrapping_add(k)).await }
+}
+pub fn then_gate_r(f: impl Future<Output = Result<u8, u8>>, p: u8, c: u16, k: u8) -> impl Future<Output = Result<u8, u8>> {
+    async move { let x = f.await?; ev(c); gate(p, (c & 0x0fff) | (K_POLL << 12) | 1, Ok::<u8, u8>(x.wrapping_add(k))).await }
+}
